@@ -178,9 +178,9 @@ def compare_motl(ctx, df, expected, g, clause, case, sig, what, loose=False):
     return True
 
 
-def compare_sg(ctx, sg_df, expected, g, case, sig):
+def compare_sg(ctx, sg_df, expected, g, case, sig, what=""):
     if sg_df.shape[0] != len(expected):
-        ctx.fail("C04_OrderKept", "STOPGAP table has %d rows, expected %d" % (sg_df.shape[0], len(expected)), case, sig)
+        ctx.fail("C04_OrderKept", "%sSTOPGAP table has %d rows, expected %d" % (what, sg_df.shape[0], len(expected)), case, sig)
         return False
     missing = [c for c in SG_COLUMNS if c not in sg_df.columns]
     if missing:
@@ -192,8 +192,8 @@ def compare_sg(ctx, sg_df, expected, g, case, sig):
         for i, e in enumerate(expected):
             a = g.abstract(sg_kind(c), vals[i])
             if a != e[c]:
-                ctx.fail(clause, "particle %d column %s = %r (abstract %r), expected abstract %r" % (
-                    i + 1, c, vals[i], a, e[c]), case, dict(sig, field=c))
+                ctx.fail(clause, "%sparticle %d column %s = %r (abstract %r), expected abstract %r" % (
+                    what, i + 1, c, vals[i], a, e[c]), case, dict(sig, field=c))
                 return False
     return True
 
@@ -207,12 +207,17 @@ def api_export(df, reset, variant):
 
 
 def api_import(sg_df, variant):
-    from cryocat.cryomotl import StopgapMotl
-    if variant % 2 == 0:
-        m = StopgapMotl()
+    from cryocat import cryomotl
+    v = variant % 4
+    if v == 0:
+        m = cryomotl.StopgapMotl()
         m.convert_to_motl(sg_df)
         return m.df
-    return StopgapMotl(sg_df).df
+    if v == 1:
+        return cryomotl.StopgapMotl(sg_df).df
+    if v == 2:
+        return cryomotl.stopgap2emmotl(sg_df).df
+    return cryomotl.Motl.load(sg_df, "stopgap").df
 
 
 def api_write(df, path, update, reset, variant):
@@ -251,7 +256,46 @@ class Runner:
         self.ctx = ctx
         self.U = U
         self.traces = []       # (trace record, case, sig)
+        self.pending = {}      # (operation, list length) -> earlier in-memory result awaiting its second judgement
         self.n = 0
+
+    def exec_inmem(self, case, g, rng, sig):
+        """Runs an in-memory conversion; the table handed to cryoCAT carries default, permuted or gapped row labels
+        (the expected result is positional).  Returns the returned object, or None when the call raised."""
+        ctx = self.ctx
+        op = case["op"]
+        variant = case["variant"]
+        if op["name"] == "export":
+            df = motlutil.vary_index(build_motl_df(case["pre"], g, rng), variant // 2)
+            keep = df.copy()
+            res, err = core.call_guarded(api_export, df, op["reset"], variant)
+            if err is not None:
+                ctx.fail("call_raises", "convert_to_sg_motl: %s" % err, case, sig)
+                return None
+            if not df.equals(keep) or list(df.index) != list(keep.index):
+                ctx.fail("C04_Renaming", "convert_to_sg_motl modified its input list", case, sig)
+            return res
+        sg_df = motlutil.vary_index(build_sg_df(case["sgin"], g, rng), variant // 4)
+        res, err = core.call_guarded(api_import, sg_df, variant)
+        if err is not None:
+            ctx.fail("call_raises", "convert_to_motl: %s" % err, case, sig)
+            return None
+        return res
+
+    def judge_inmem(self, got, case, g, sig, later):
+        ctx = self.ctx
+        if later is not None:
+            fcase = {"kind": "pair", "U": case["U"], "first": case, "second": later}
+            fsig = dict(sig, aliasing=True)
+        else:
+            fcase, fsig = case, sig
+        if case["op"]["name"] == "export":
+            compare_sg(ctx, got, case["sg"], g, fcase, fsig, what="" if later is None else
+                       "result of an earlier conversion, judged after a later conversion of an equally long list: ")
+        else:
+            compare_motl(ctx, got, case["back"], g, "C04_Renaming", fcase, fsig,
+                         "list converted from the STOPGAP table" + ("" if later is None else
+                                                                     " (earlier result judged after a later conversion)"))
 
     def gamma_for(self, case):
         rng = __import__("random").Random(case["gseed"])
@@ -264,30 +308,25 @@ class Runner:
         op = case["op"]
         name = op["name"]
         variant = case["variant"]
-        sig = {"op": name, "api": variant % 2}
+        sig = {"op": name, "api": variant % 4 if name == "import" else variant % 2}
         if "reset" in op:
             sig["reset"] = op["reset"]
         if "update" in op:
             sig["update"] = op["update"]
         self.n += 1
         ctx.ran(case)
-        if name == "export":
-            df = build_motl_df(case["pre"], g, rng)
-            keep = df.copy()
-            res, err = core.call_guarded(api_export, df, op["reset"], variant)
-            if err is not None:
-                ctx.fail("call_raises", "convert_to_sg_motl: %s" % err, case, sig)
+        if name in ("export", "import"):
+            got = self.exec_inmem(case, g, rng, sig)
+            if got is None:
                 return
-            compare_sg(ctx, res, case["sg"], g, case, sig)
-            if not df.equals(keep):
-                ctx.fail("C04_Renaming", "convert_to_sg_motl modified its input list", case, sig)
-        elif name == "import":
-            sg_df = build_sg_df(case["sgin"], g, rng)
-            res, err = core.call_guarded(api_import, sg_df, variant)
-            if err is not None:
-                ctx.fail("call_raises", "convert_to_motl: %s" % err, case, sig)
-                return
-            compare_motl(ctx, res, case["back"], g, "C04_Renaming", case, sig, "list converted from the STOPGAP table")
+            self.judge_inmem(got, case, g, sig, later=None)
+            # aliasing: an EARLIER result must still be right after a later call on a list of the same length
+            key = (name, len(case["pre"]))
+            prev = self.pending.get(key)
+            if prev is not None:
+                pgot, pcase, pg, psig = prev
+                self.judge_inmem(pgot, pcase, pg, psig, later=case)
+            self.pending[key] = (got, case, g, sig)
         elif name == "load":
             path = os.path.join(ctx.workdir, "sgin_%d.star" % os.getpid())
             independent_sg_file(path, case["sgin"], g, rng)
@@ -298,7 +337,7 @@ class Runner:
             compare_motl(ctx, res, case["back"], g, "C04_FileRoundTrip", case, sig, "list loaded from a STOPGAP file",
                          loose=True)
         elif name == "write":
-            df = build_motl_df(case["pre"], g, rng)
+            df = motlutil.vary_index(build_motl_df(case["pre"], g, rng), variant // 2)
             path = os.path.join(ctx.workdir, "sgout_%d_%d.star" % (os.getpid(), self.n))
             res, err = core.call_guarded(api_write, df, path, op["update"], op["reset"], variant)
             if err is not None:
@@ -364,7 +403,11 @@ def case_from_tr(tr, U, gseed, variant, pre=None):
 
 def replay(ctx, case):
     r = Runner(ctx, case["U"])
-    r.run_case(case)
+    if case["kind"] == "pair":
+        r.run_case(case["first"])
+        r.run_case(case["second"])
+    else:
+        r.run_case(case)
     r.validate_files("replay")
     if ctx.states == 0:
         # keep the evidence well-formed for in-memory cases: re-check the small scope of the specification
